@@ -78,6 +78,16 @@ def getField (fields : Fields) (i : Nat) : Py ABuf :=
   | some f => pure f.2
   | none => throw .indexError
 
+/-- the arithmetic of udp `_compute_checksum` once the pseudo-header and the UDP header + payload are assembled -/
+def udpChecksumOf (pseudo up : ABuf) : Py ABuf :=
+  let ps := foldSum (pseudo.chunks 16 false)
+  let us := foldSum (up.chunks 16 true)
+  let c := ps + us
+  let c := (c + (c >>> 16)) &&& 0xffff
+  let c := (0xffff - c) &&& 0xffff
+  let c := if c = 0 then 0xffff else c
+  natBuf 2 c
+
 /-- udp `_compute_checksum` -/
 def udpChecksum (fields : Fields) (pos : Nat) : Py ABuf := do
   let ids := fields.map (·.1)
@@ -108,13 +118,7 @@ def udpChecksum (fields : Fields) (pos : Nat) : Py ABuf := do
       let len ← natBuf 2 udpTotal
       pure ((((src.add dst).add (ABuf.ofNat 8 0)).add (ABuf.ofNat 8 0x11)).add len)
     else throw .unboundLocal
-  let ps := foldSum (pseudo.chunks 16 false)
-  let us := foldSum (up.chunks 16 true)
-  let c := ps + us
-  let c := (c + (c >>> 16)) &&& 0xffff
-  let c := (0xffff - c) &&& 0xffff
-  let c := if c = 0 then 0xffff else c
-  natBuf 2 c
+  udpChecksumOf pseudo up
 
 /-- `crc32c(buffer, crc_init)`: table-driven, one byte (8-bit chunk, zero-padded) at a time -/
 def crc32c (b : ABuf) (init : Nat) : Py ABuf := do
